@@ -4,6 +4,7 @@ from . import types as T
 from . import extract as X
 from . import registry as R
 from .state import SV, State, VCError, Display, PyFunc, fresh, fresh_sort
+from . import extract as X
 
 I = z3.IntVal
 def S(s): return z3.StringVal(s)
@@ -92,8 +93,58 @@ class ExprMixin:
         raise VCError("no empty value for %s" % ty)
 
     # ------------------------------------------------------------------ equality
+    def eq_inline(self, st, a, b):
+        """a == b through the class's own __eq__, inlined from the real source for each possible dynamic class of a."""
+        if st is None: raise VCError("object == needs a state")
+        alts = []
+        self.quiet += 1
+        saved = self.pending_raises; self.pending_raises = []
+        try:
+            for cq, cond in self.classes_of(st, a):
+                m, c = cq.split(":")
+                meth = X.find_method(m, c, "__eq__")
+                if meth is None:
+                    alts.append(z3.And(cond, a.t == b.t)); continue
+                s0 = st.fork(); s0.assume(cond)
+                base = len(s0.pc)
+                for s1, v in self.call_user(s0, "%s:%s.__eq__" % (meth[0], meth[1]), SV(a.ty, a.t, cls=cq), [b], {}, None):
+                    alts.append(z3.And([cond] + s1.pc[base:] + [self.truth(v)]))
+        finally:
+            self.quiet -= 1; self.pending_raises = saved
+        return z3.Or(alts + [z3.BoolVal(False)])
+
+    def eq_types(self, st, a, b):
+        ka, kb = a.t, b.t
+        def tag(k):
+            x = k[1]
+            if isinstance(x.ty, T.Obj): return ("obj", x.ty.family, self.hread(st, x.ty.family, "__class__", x.t))
+            return ("static", x.ty)
+        if ka[0] == "typeof" and kb[0] == "typeof":
+            ta, tb = tag(ka), tag(kb)
+            if ta[0] == "obj" and tb[0] == "obj":
+                return (ta[2] == tb[2]) if ta[1] == tb[1] else z3.BoolVal(False)
+            if ta[0] == "static" and tb[0] == "static": return z3.BoolVal(ta[1] == tb[1])
+            return z3.BoolVal(False)
+        t, o = (ka, kb) if ka[0] == "typeof" else (kb, ka)
+        if t[0] != "typeof": raise VCError("comparison of function values")
+        x = t[1]
+        if o[0] == "class":
+            if not isinstance(x.ty, T.Obj): return z3.BoolVal(False)
+            sch = R.SCHEMAS[x.ty.family]
+            if o[1] not in sch.classes: return z3.BoolVal(False)
+            return self.hread(st, x.ty.family, "__class__", x.t) == sch.classes.index(o[1])
+        if o[0] == "pytype":
+            py = {"str": T.Str, "int": T.Int, "float": T.Real, "bool": T.Bool, "list": None}.get(o[1])
+            if x.ty == T.Card: return T.card_is_int(x.t) if o[1] == "int" else (z3.Not(T.card_is_int(x.t)) if o[1] == "str" else z3.BoolVal(False))
+            if isinstance(x.ty, T.Opt): return z3.And(z3.Not(T.opt_is_none(x.ty, x.t)), z3.BoolVal(x.ty.t == py))
+            if o[1] == "str" and isinstance(x.ty, T.Atom): return z3.BoolVal(True)
+            if o[1] == "list": return z3.BoolVal(isinstance(x.ty, T.List))
+            return z3.BoolVal(x.ty == py)
+        raise VCError("type comparison with %s" % (o,))
+
     def eq(self, a, b, st=None):
         """Python == as a z3 Bool."""
+        if a.ty == PyFunc and b.ty == PyFunc: return self.eq_types(st, a, b)
         if a.ty == Display or b.ty == Display:
             if a.ty == Display and b.ty == Display:
                 if len(a.t) != len(b.t): return z3.BoolVal(False)
@@ -125,6 +176,7 @@ class ExprMixin:
         if isinstance(a.ty, T.Obj) and isinstance(b.ty, T.Obj):
             if a.ty.family != b.ty.family: return z3.BoolVal(False)
             sch = R.SCHEMAS[a.ty.family]
+            if sch.eq_inline: return self.eq_inline(st, a, b)
             if sch.eq_fields is None: return a.t == b.t
             if st is None: raise VCError("object == needs a state")
             conj = [self.hread(st, a.ty.family, "__class__", a.t) == self.hread(st, a.ty.family, "__class__", b.t)]
@@ -162,7 +214,7 @@ class ExprMixin:
             st.assume(z3.And(sv.t >= 1, sv.t < st.alloc))
             sch = R.SCHEMAS[ty.family]
             c = self.hread(st, ty.family, "__class__", sv.t)
-            st.assume(z3.And(c >= 0, c < len(sch.classes)))
+            if sch.classes: st.assume(z3.And(c >= 0, c < len(sch.classes)))
             if sch.invariant and not getattr(self, "_in_inv", False):
                 self._in_inv = True
                 try:
